@@ -22,10 +22,10 @@ def cascade_text(casc):
     return ", ".join(c)
 
 
-def mapping(casc, nullable=True, uni=False):
+def mapping(casc, nullable=True, uni=False, kind="list"):
     """Declarative classes for the bidirectional one-to-many P.children <-> C.parent with the given cascade on P.children
     (uni: only P.children, no many-to-one side)."""
-    key = (cascade_text(casc), nullable, uni)
+    key = (cascade_text(casc), nullable, uni, kind)
     if key in _MAPPINGS:
         return _MAPPINGS[key]
     import sqlalchemy as sa
@@ -34,11 +34,17 @@ def mapping(casc, nullable=True, uni=False):
     class Base(orm.DeclarativeBase):
         pass
 
+    ckw = {}
+    if kind == "set":
+        ckw["collection_class"] = set
+    elif kind == "dict":
+        ckw["collection_class"] = orm.attribute_keyed_dict("id")
+
     class P(Base):
         __tablename__ = "p"
         id = sa.Column(sa.Integer, primary_key=True, autoincrement=False)
-        children = orm.relationship("C", cascade=key[0], order_by="C.id") if uni else \
-            orm.relationship("C", back_populates="parent", cascade=key[0], order_by="C.id")
+        children = orm.relationship("C", cascade=key[0], order_by="C.id", **ckw) if uni else \
+            orm.relationship("C", back_populates="parent", cascade=key[0], order_by="C.id", **ckw)
 
         def __repr__(self):
             return "p%s" % self.__dict__.get("id")
@@ -69,7 +75,7 @@ _DML = re.compile(r"^\s*(INSERT INTO|UPDATE|DELETE FROM)\s+(\w+)", re.I)
 
 
 class Real:
-    def __init__(self, workdir, casc, ps, cs, nullable=True, tag="db", uni=False):
+    def __init__(self, workdir, casc, ps, cs, nullable=True, tag="db", uni=False, kind="list"):
         import sqlalchemy as sa
         from sqlalchemy import event, orm
         from sqlalchemy.pool import NullPool
@@ -79,7 +85,8 @@ class Real:
         if os.path.exists(self.path):
             os.unlink(self.path)
         self.uni = uni
-        self.Base, self.P, self.C = mapping(casc, nullable, uni)
+        self.kind = kind
+        self.Base, self.P, self.C = mapping(casc, nullable, uni, kind)
         self.ps, self.cs = list(ps), list(cs)
         self.engine = sa.create_engine("sqlite:///" + self.path, connect_args={"autocommit": False}, poolclass=NullPool)
 
@@ -141,8 +148,76 @@ class Real:
     def newobj(self, n):
         """new objects have both relationship attributes initialised (no unloaded attribute ever exists in a walk)"""
         if n[0] == "p":
-            return self.P(id=int(n[1:]), children=[])
+            return self.P(id=int(n[1:]), children=self.mkcoll([]))
         return self.C(id=int(n[1:]), val=0) if self.uni else self.C(id=int(n[1:]), parent=None, val=0)
+
+    def mkcoll(self, members):
+        """a plain collection of the mapped kind holding the given child objects"""
+        if self.kind == "set":
+            return set(members)
+        if self.kind == "dict":
+            return {m.__dict__["id"]: m for m in members}
+        return list(members)
+
+    def members(self, coll):
+        """members of an instrumented collection as names: list / dict in their own order, set sorted"""
+        if coll is None:
+            return []
+        if self.kind == "dict":
+            bad = [k for k, v in coll.items() if v.__dict__["id"] != k]
+            return [name(v) for v in coll.values()] + ["BADKEY%s" % k for k in bad]
+        if self.kind == "set":
+            return sorted(name(x) for x in coll)
+        return [name(x) for x in coll]
+
+    def mutate(self, a, arg):
+        """the M* actions: one Python mutator call of the collection kind, named by the last argument"""
+        o = self.obj
+        coll = o[arg[0]].children
+        if a == "MPop":
+            return coll.popitem() if self.kind == "dict" else coll.pop()
+        if a == "MClear":
+            return coll.clear()
+        c = o[arg[1]]
+        k = c.__dict__["id"]
+        how = arg[2]
+        if self.kind == "set":
+            p = o[arg[0]]
+            if how == "add":
+                return coll.add(c)
+            if how == "update":
+                return coll.update([c])
+            if how == "ior":
+                p.children |= {c}
+                return
+            if how == "remove":
+                return coll.remove(c)
+            if how == "discard":
+                return coll.discard(c)
+            if how == "isub":
+                p.children -= {c}
+                return
+        elif self.kind == "dict":
+            if how == "setitem":
+                coll[k] = c
+                return
+            if how == "setdefault":
+                return coll.setdefault(k, c)
+            if how == "update":
+                return coll.update({k: c})
+            if how == "delitem":
+                del coll[k]
+                return
+            if how == "pop":
+                return coll.pop(k)
+            if how == "popdefault":
+                return coll.pop(k, None)
+        else:
+            if how == "append":
+                return coll.append(c)
+            if how == "remove":
+                return coll.remove(c)
+        raise ValueError("no mutator %r for kind %r" % (how, self.kind))
 
     def fk_enforced(self):
         with self.engine.connect() as conn:
@@ -189,7 +264,9 @@ class Real:
         if a == "Pop":
             return self._call(lambda: o[arg[0]].children.pop(int(arg[1])))
         if a == "Replace":
-            return self._call(lambda: setattr(o[arg[0]], "children", [o[x] for x in arg[1:]]))
+            return self._call(lambda: setattr(o[arg[0]], "children", self.mkcoll([o[x] for x in arg[1:]])))
+        if a in ("MAdd", "MRem", "MPop", "MClear", "MNoop"):
+            return self._call(lambda: self.mutate(a, arg))
         if a == "SetItem":
             return self._call(lambda: o[arg[0]].children.__setitem__(int(arg[1]), o[arg[2]]))
         if a == "Reverse":
@@ -249,7 +326,7 @@ class Real:
             ins = sa.inspect(ob)
             if n[0] == "p":
                 coll = ob.__dict__.get("children")
-                out["children"][n] = [name(x) for x in coll] if coll is not None else []
+                out["children"][n] = self.members(coll)
                 h = ins.attrs.children.history
             else:
                 out["parent"][n] = name(ob.__dict__.get("parent"))
@@ -318,8 +395,9 @@ class Driver:
     own connection and the set of DML statements (with parameters) the unit of work emitted; after CommitReload the committed rows seen
     by a second raw connection."""
 
-    def __init__(self, wid, workdir, casc, ps, cs, nullable=True, trace_sink=None, uni=False):
-        self.real = Real(workdir, casc, ps, cs, nullable=nullable, tag="w%d" % wid, uni=uni)
+    def __init__(self, wid, workdir, casc, ps, cs, nullable=True, trace_sink=None, uni=False, kind="list"):
+        self.real = Real(workdir, casc, ps, cs, nullable=nullable, tag="w%d" % wid, uni=uni, kind=kind)
+        self.kind = kind
         self.ps, self.cs = list(ps), list(cs)
         self.trace_sink = trace_sink     # list collecting [pre-rows, dml] per flush for C31
         self.calibrated = self.real.fk_enforced()
@@ -328,7 +406,7 @@ class Driver:
         self.real.reset(state["dbp"], state["dbc"], state["dbv"])
 
     def expected(self, to, obs):
-        e = {"life": to["life"], "children": {p: list(to["coll"][p]) for p in self.ps}, "parent": to["parent"], "pid": to["pid"], "val": to["val"],
+        e = {"life": to["life"], "children": {p: (sorted(to["coll"][p]) if self.kind == "set" else list(to["coll"][p])) for p in self.ps}, "parent": to["parent"], "pid": to["pid"], "val": to["val"],
              "marked": sorted(to["marked"]), "mod": sorted(to["mod"]), "insess": sorted(obs["insess"]), "hist": {}}
         for o in self.ps + self.cs:
             e["hist"][o] = _sets(obs["hist"][o])
